@@ -236,8 +236,9 @@ def perturbed_history(s, smiles, obs, keys, rec):
         a = evaluate(m, obs)
         b = evaluate(m.copy(), obs)
         rec['copy_differs'] += [f'after-{name}:{k}' for k in keys if a[k] != b[k]]
+    if a is not None:   # first read after the last perturbation vs a later read
         again = evaluate(m, obs)
-        rec['cached_differs'] += [f'{k}:again-after-{name}' for k in keys if again[k] != a[k]]
+        rec['cached_differs'] += [f'{k}:again-after-perturbations' for k in keys if again[k] != a[k]]
     return a, applied
 
 
